@@ -100,6 +100,35 @@ CHECKS = {
             "pre-emption before every source line of circuit.py/budget.py (not inside a line); constant clock during "
             "the concurrent phase; pre-emption bound 2 (quick) / 3 (thorough)",
             "5/C17"),
+    "C18": ("exploration",
+            "Strategies.tla: exact-rational model of the stateless strategies on a spec-chosen grid and of the "
+            "AdaptiveStrategy window machine; TLC checks value-in-envelope on the grid / state space and exports test "
+            "vectors and the transition graph; the real strategies are run with the random draw pinned and compared "
+            "with the envelope (verdict) and the model value (conformance); seeded neighbourhood sampling",
+            "envelopes hold on every grid point (incl. attempt 1024, 1751, 10^6; both ends of the random interval), on "
+            "every reachable AdaptiveStrategy state within the bounds, and on seeded random neighbourhoods; not a proof "
+            "over all floats",
+            "grid parameters are exact dyadic floats; random.uniform replaced by a + (b-a)*draw",
+            "5/C18"),
+    "C19": ("exploration",
+            "Classify.tla: abstract exception domain with Python truthiness/isinstance semantics, implementation-"
+            "shaped decision tables and property-level allowed sets; TLC checks table-in-allowed-set on the whole domain "
+            "(51k abstract cases) and exports them; each case is concretised several ways and run through the real "
+            "classifiers (never raises, returns an ErrorClass, inside the allowed set; strict ignores names; optional-"
+            "library classifiers equal default_classifier)",
+            "exhaustive over the abstract domain of spec/Classify.tla, sampled inside each abstract value",
+            "attribute values are built-in values; optional libraries absent in the sandbox",
+            "5/C19"),
+    "C20": ("exploration",
+            "RetryAfter.tla: parsing table (source x header container shape x value category -> expected hint "
+            "category) and honouring envelope on an integer grid, evaluated and exported by TLC; real "
+            "http_retry_after_classifier run on fixed and seeded random members of every cell; retry_after_or driven "
+            "directly and through a real Retry policy on the virtual clock with the draw pinned",
+            "never raises; hint is None or a non-negative number; documented values exact; delay within "
+            "[hint, hint+jitter] capped by the remaining time on the whole grid; safety over all strings sampled per "
+            "syntactic category",
+            "HTTP-date expectations use the real wall clock with 5 s tolerance",
+            "5/C20"),
     "C06": ("model_checking",
             "TLC exhaustive check of Breaker.tla (deque model M vs unpruned-log reference P) + replay of "
             "every transition of M's exported graph on the real CircuitBreaker + TLC trace validation "
